@@ -36,6 +36,12 @@ static const size_t RZ = 0;   // exact-size allocations: the sanitizer's redzone
 static const size_t RZ = 16;
 #endif
 
+#ifdef HARNESS_OMP_STANDIN
+extern "C" void glv_omp_config(int mode, int maxthreads, uint64_t seed);
+extern "C" uint64_t glv_omp_regions();
+extern "C" uint64_t glv_omp_members();
+#endif
+
 // guard mode ('^' request prefix): every region argument is mapped so that it ENDS at a PROT_NONE page; a read or
 // write of even one element past the declared extent raises SIGSEGV (reported as "err signal 11" by the forked runner)
 static bool g_guard = false;
@@ -175,6 +181,14 @@ static bool parse_line(const std::string &line, bool &forked, std::string &fn, A
     std::istringstream is(line);
     std::string tok;
     if (!(is >> fn)) return false;
+    if (fn[0] == '@') {   // "@<mode>:<maxthreads>:<seed>"  OpenMP stand-in configuration for this request (C12)
+#ifdef HARNESS_OMP_STANDIN
+        int mode = 0, mx = 4; unsigned long long sd = 1;
+        sscanf(fn.c_str() + 1, "%d:%d:%llx", &mode, &mx, &sd);
+        glv_omp_config(mode, mx, sd);
+#endif
+        if (!(is >> fn)) return false;
+    }
     forked = false;
     if (fn[0] == '!') { forked = true; fn = fn.substr(1); }
     g_guard = false;
